@@ -366,3 +366,7 @@ def randrange_histogram(tier, seed):
         if len(samples) < 2:
             samples.append(dict(order=order, chunks=256 ** u256, preimages_per_value=D, rejected=rejected))
     return n_cases, found, samples
+
+
+for _q in ['ecdsa.util.randrange', 'ecdsa.util.randrange_from_seed__overshoot_modulo', 'ecdsa.util.randrange_from_seed__trytryagain']:
+    _R[_q].theories = {"shift"}
